@@ -438,7 +438,7 @@ func TestC21(t *testing.T) {
 			emit(e, cs)
 		}
 	}
-	n := r.N(220, 8000)
+	n := r.N(180, 8000)
 	for i := 0; i < n; i++ {
 		cs := randomCase(r)
 		emit(envs[i%len(envs)], cs)
@@ -453,7 +453,7 @@ func TestC21(t *testing.T) {
 	for _, cs := range corpus() {
 		pubCases = append(pubCases, cs)
 	}
-	cn := cp.N(60, 2000)
+	cn := cp.N(40, 2000)
 	for i := 0; i < cn; i++ {
 		pubCases = append(pubCases, randomCase(cp))
 	}
